@@ -1,1 +1,450 @@
-// verification hook for h263/src/parser/reader.rs (compiled only under cfg(kani) or cfg(ruffle_rs_h263_rs_verif))
+// Hook module of h263/src/parser/reader.rs.  Property C14 (and the reader clauses of C05, C15); also the discharge of the reader
+// contract (A-READER) that the Verus parser units assume.
+//
+// Every public operation is verified from an ARBITRARY well-formed reader state of a given shape - `TOTAL` stream bytes of which `B` are
+// already in the internal buffer and the rest still in the source, `bits_read == POS` - against a bit-vector model of the stream; the stream
+// bytes are symbolic, the shape and the operation's width are concrete (enumerated). Because each operation is checked from any state of
+// the shape to the state it leaves, any interleaving of operations is covered by induction over the history - within the bound on TOTAL.
+#![allow(dead_code, unused_imports)]
+use super::*;
+
+include!("/verif/hooks/common.rs");
+
+const MAXB: usize = 4;
+
+fn model_bits(all: &[u8; MAXB], pos: usize, n: usize) -> u64 {
+    let mut acc = 0u64;
+    let mut k = 0;
+    while k < n {
+        let p = pos + k;
+        let bit = (all[p / 8] >> (7 - (p % 8))) & 1;
+        acc = (acc << 1) | bit as u64;
+        k += 1;
+    }
+    acc
+}
+fn mk(all: &[u8; MAXB], total: usize, b: usize, pos: usize) -> H263Reader<&[u8]> {
+    let mut r = H263Reader::from_source(&all[b..total]);
+    let mut i = 0;
+    while i < b {
+        r.buffer.push_back(all[i]);
+        i += 1;
+    }
+    r.bits_read = pos;
+    r
+}
+fn is_eof(e: &Error) -> bool {
+    e.is_eof_error()
+}
+// absolute position of a reader whose buffer starts at stream byte `base`
+fn abs_pos<R: Read>(r: &H263Reader<R>, base: usize) -> usize {
+    base * 8 + r.bits_read
+}
+
+// ---- fixed-width reads ---------------------------------------------------------------------------------------------------------------------------
+// peek / read / skip of n bits, n = 0..=NMAX, into u32: value, position, failure (EOF) consumes nothing and keeps what it fetched
+fn h_read_u32<S: Src, const TOTAL: usize, const B: usize, const POS: usize, const NMAX: usize>(s: &mut S) {
+    let all: [u8; MAXB] = s.arr();
+    let mut n = 0;
+    while n <= NMAX {
+        let fits = POS + n <= TOTAL * 8;
+        // peek
+        let mut r = mk(&all, TOTAL, B, POS);
+        match r.peek_bits::<u32>(n as u32) {
+            Ok(v) => chk!(s, fits && v as u64 == model_bits(&all, POS, n), "reader.peek_bits.post_value: the n bits at the position, most significant first"),
+            Err(e) => {
+                chk!(s, !fits && is_eof(&e), "reader.peek_bits.post_eof: fails exactly when fewer than n bits remain, with end-of-data");
+                core::mem::forget(e);
+            }
+        }
+        chk!(s, r.bits_read == POS, "reader.peek_bits.post_pos: a peek consumes nothing");
+        // read
+        let mut r = mk(&all, TOTAL, B, POS);
+        match r.read_bits::<u32>(n as u32) {
+            Ok(v) => {
+                chk!(s, fits && v as u64 == model_bits(&all, POS, n), "reader.read_bits.post_value: the n bits at the position, most significant first");
+                chk!(s, r.bits_read == POS + n, "reader.read_bits.post_pos: exactly n bits are consumed");
+            }
+            Err(e) => {
+                chk!(s, !fits && is_eof(&e), "reader.read_bits.post_eof: fails exactly when fewer than n bits remain, with end-of-data");
+                chk!(s, r.bits_read == POS, "reader.read_bits.err_pos: a failed read consumes nothing");
+                core::mem::forget(e);
+                // whatever was fetched is retained: the remaining whole bytes can still be read
+                if POS + 8 <= TOTAL * 8 {
+                    match r.read_bits::<u32>(8) {
+                        Ok(v) => chk!(s, v as u64 == model_bits(&all, POS, 8), "reader.read_bits.err_retains: after a failed read the same bits are still delivered"),
+                        Err(e2) => {
+                            chk!(s, false, "reader.read_bits.err_retains: after a failed read the same bits are still delivered");
+                            core::mem::forget(e2);
+                        }
+                    }
+                }
+            }
+        }
+        // skip
+        let mut r = mk(&all, TOTAL, B, POS);
+        match r.skip_bits(n as u32) {
+            Ok(()) => chk!(s, fits && r.bits_read == POS + n, "reader.skip_bits.post_pos: exactly n bits are skipped"),
+            Err(e) => {
+                chk!(s, !fits && is_eof(&e) && r.bits_read == POS, "reader.skip_bits.err_pos: a failed skip consumes nothing");
+                core::mem::forget(e);
+            }
+        }
+        n += 1;
+    }
+    s.reach();
+}
+
+// narrow and signed types: width check (n > width => InternalDecoderError), zero extension, two's-complement sign extension
+fn h_read_narrow<S: Src, const TOTAL: usize, const B: usize, const POS: usize>(s: &mut S) {
+    let all: [u8; MAXB] = s.arr();
+    let mut n = 0;
+    while n <= 17 {
+        let fits = POS + n <= TOTAL * 8;
+        let mut r = mk(&all, TOTAL, B, POS);
+        match r.read_bits::<u8>(n as u32) {
+            Ok(v) => chk!(s, n <= 8 && fits && v as u64 == model_bits(&all, POS, n) && r.bits_read == POS + n, "reader.read_bits.u8: value and position for n <= 8"),
+            Err(e) => {
+                chk!(s, (n > 8 || !fits) && r.bits_read == POS, "reader.read_bits.u8_err: rejected only beyond the type width or the end of data; nothing consumed");
+                core::mem::forget(e);
+            }
+        }
+        let mut r = mk(&all, TOTAL, B, POS);
+        match r.read_bits::<u16>(n as u32) {
+            Ok(v) => chk!(s, n <= 16 && fits && v as u64 == model_bits(&all, POS, n) && r.bits_read == POS + n, "reader.read_bits.u16: value and position for n <= 16"),
+            Err(e) => {
+                chk!(s, (n > 16 || !fits) && r.bits_read == POS, "reader.read_bits.u16_err");
+                core::mem::forget(e);
+            }
+        }
+        if n >= 1 && n <= 16 {
+            let mut r = mk(&all, TOTAL, B, POS);
+            match r.read_signed_bits::<i16>(n as u32) {
+                Ok(v) => {
+                    let raw = model_bits(&all, POS, n) as i64;
+                    let want = if raw >= (1i64 << (n - 1)) { raw - (1i64 << n) } else { raw };
+                    chk!(s, fits && v as i64 == want && r.bits_read == POS + n, "reader.read_signed_bits.post: two's-complement sign extension of the n bits; n bits consumed");
+                }
+                Err(e) => {
+                    chk!(s, !fits && r.bits_read == POS, "reader.read_signed_bits.err_pos: a failed signed read consumes nothing");
+                    core::mem::forget(e);
+                }
+            }
+            let mut r = mk(&all, TOTAL, B, POS);
+            match r.peek_signed_bits::<i16>(n as u32) {
+                Ok(v) => {
+                    let raw = model_bits(&all, POS, n) as i64;
+                    let want = if raw >= (1i64 << (n - 1)) { raw - (1i64 << n) } else { raw };
+                    chk!(s, fits && v as i64 == want && r.bits_read == POS, "reader.peek_signed_bits.post: sign-extended value, nothing consumed");
+                }
+                Err(e) => {
+                    chk!(s, !fits && r.bits_read == POS, "reader.peek_signed_bits.err_pos");
+                    core::mem::forget(e);
+                }
+            }
+        }
+        n += 1;
+    }
+    s.reach();
+}
+
+// ---- start code recognition -------------------------------------------------------------------------------------------------------------------------
+fn sc_at(all: &[u8; MAXB], total: usize, p: usize) -> bool {
+    p + 17 <= total * 8 && model_bits(all, p, 17) == 1
+}
+fn h_start_code<S: Src, const TOTAL: usize, const B: usize, const POS: usize>(s: &mut S) {
+    let all: [u8; MAXB] = s.arr();
+    let realign = (8 - POS % 8) % 8;
+    let mut r = mk(&all, TOTAL, B, POS);
+    match r.recognize_start_code(false) {
+        Ok(Some(k)) => {
+            let k = k as usize;
+            chk!(s, k <= 8 && k <= realign + 1, "reader.recognize_start_code.window: at most the stuffing up to the byte boundary (< 8 bits) plus one is skipped");
+            chk!(s, sc_at(&all, TOTAL, POS + k), "reader.recognize_start_code.is_start_code: sixteen zero bits and a one begin at the reported offset");
+            let mut j = 0;
+            let mut nearest = true;
+            while j < k {
+                if sc_at(&all, TOTAL, POS + j) {
+                    nearest = false;
+                }
+                j += 1;
+            }
+            chk!(s, nearest, "reader.recognize_start_code.nearest: no start code begins at a smaller offset");
+        }
+        Ok(None) => {
+            let mut j = 0;
+            let mut none = true;
+            while j <= realign + 1 {
+                if sc_at(&all, TOTAL, POS + j) {
+                    none = false;
+                }
+                j += 1;
+            }
+            chk!(s, none, "reader.recognize_start_code.none: None only when no start code begins within the window");
+        }
+        Err(e) => {
+            // end of data while looking
+            chk!(s, is_eof(&e), "reader.recognize_start_code.err: only end-of-data");
+            core::mem::forget(e);
+        }
+    }
+    chk!(s, r.bits_read == POS, "reader.recognize_start_code.post_pos: recognition consumes nothing");
+    // resynchronisation mode: the nearest start code anywhere ahead, or end-of-data
+    let mut r = mk(&all, TOTAL, B, POS);
+    match r.recognize_start_code(true) {
+        Ok(Some(k)) => {
+            let k = k as usize;
+            let mut j = 0;
+            let mut nearest = sc_at(&all, TOTAL, POS + k);
+            while j < k {
+                if sc_at(&all, TOTAL, POS + j) {
+                    nearest = false;
+                }
+                j += 1;
+            }
+            chk!(s, nearest, "reader.recognize_start_code.in_error_nearest: the nearest start code ahead");
+        }
+        Ok(None) => chk!(s, false, "reader.recognize_start_code.in_error_never_none"),
+        Err(e) => {
+            let mut j = 0;
+            let mut none = true;
+            while POS + j + 17 <= TOTAL * 8 {
+                if sc_at(&all, TOTAL, POS + j) {
+                    none = false;
+                }
+                j += 1;
+            }
+            chk!(s, none && is_eof(&e), "reader.recognize_start_code.in_error_eof: end-of-data only when no start code is ahead");
+            core::mem::forget(e);
+        }
+    }
+    chk!(s, r.bits_read == POS, "reader.recognize_start_code.post_pos: recognition consumes nothing");
+    s.reach();
+}
+
+// ---- transactions, look-ahead, commit ------------------------------------------------------------------------------------------------------------------
+// closure: read N1 bits, then finish with outcome OUT (0: Ok(Some), 1: Ok(None), 2: Err)
+fn h_transactions<S: Src, const TOTAL: usize, const B: usize, const POS: usize, const N1: usize>(s: &mut S) {
+    let all: [u8; MAXB] = s.arr();
+    let fits = POS + N1 <= TOTAL * 8;
+    let mut out = 0;
+    while out < 3 {
+        // with_transaction: position kept iff the closure succeeded
+        let mut r = mk(&all, TOTAL, B, POS);
+        let res = r.with_transaction(|r| {
+            let v: u32 = r.read_bits(N1 as u32)?;
+            if out == 2 {
+                Err(Error::InvalidBitstream)
+            } else {
+                Ok(v)
+            }
+        });
+        match res {
+            Ok(v) => chk!(s, fits && out != 2 && v as u64 == model_bits(&all, POS, N1) && r.bits_read == POS + N1, "reader.with_transaction.ok: a successful transaction keeps its reads"),
+            Err(e) => {
+                chk!(s, (!fits || out == 2) && r.bits_read == POS, "reader.with_transaction.err: a failed transaction consumes nothing");
+                core::mem::forget(e);
+            }
+        }
+        // with_transaction_union: position kept iff Ok(Some)
+        let mut r = mk(&all, TOTAL, B, POS);
+        let res = r.with_transaction_union(|r| {
+            let v: u32 = r.read_bits(N1 as u32)?;
+            if out == 2 {
+                Err(Error::InvalidBitstream)
+            } else if out == 1 {
+                Ok(None)
+            } else {
+                Ok(Some(v))
+            }
+        });
+        match res {
+            Ok(Some(v)) => chk!(s, fits && out == 0 && v as u64 == model_bits(&all, POS, N1) && r.bits_read == POS + N1, "reader.with_transaction_union.some: Ok(Some) keeps its reads"),
+            Ok(None) => chk!(s, fits && out == 1 && r.bits_read == POS, "reader.with_transaction_union.none: Ok(None) consumes nothing"),
+            Err(e) => {
+                chk!(s, (!fits || out == 2) && r.bits_read == POS, "reader.with_transaction_union.err: Err consumes nothing");
+                core::mem::forget(e);
+            }
+        }
+        // with_lookahead: never consumes
+        let mut r = mk(&all, TOTAL, B, POS);
+        let res = r.with_lookahead(|r| {
+            let v: u32 = r.read_bits(N1 as u32)?;
+            if out == 2 {
+                Err(Error::InvalidBitstream)
+            } else {
+                Ok(v)
+            }
+        });
+        match res {
+            Ok(v) => chk!(s, fits && out != 2 && v as u64 == model_bits(&all, POS, N1), "reader.with_lookahead.value: the look-ahead sees the bits at the position"),
+            Err(e) => {
+                chk!(s, !fits || out == 2, "reader.with_lookahead.err");
+                core::mem::forget(e);
+            }
+        }
+        chk!(s, r.bits_read == POS, "reader.with_lookahead.post_pos: a look-ahead consumes nothing");
+        // the bits are still there afterwards
+        if POS + 8 <= TOTAL * 8 {
+            match r.read_bits::<u32>(8) {
+                Ok(v) => chk!(s, v as u64 == model_bits(&all, POS, 8), "reader.with_lookahead.redeliver: the bits looked at are delivered again"),
+                Err(e) => {
+                    chk!(s, false, "reader.with_lookahead.redeliver: the bits looked at are delivered again");
+                    core::mem::forget(e);
+                }
+            }
+        }
+        out += 1;
+    }
+    s.reach();
+}
+
+// commit: drops exactly the consumed whole bytes; every bit from the position on is delivered afterwards, once, in order
+fn h_commit<S: Src, const TOTAL: usize, const B: usize, const POS: usize>(s: &mut S) {
+    let all: [u8; MAXB] = s.arr();
+    let mut r = mk(&all, TOTAL, B, POS);
+    r.commit();
+    chk!(s, r.bits_read == POS % 8 && r.buffer.len() == B - POS / 8, "reader.commit.post_shape: only whole consumed bytes leave the buffer, the sub-byte offset is kept");
+    let rest = TOTAL * 8 - POS;
+    let take = if rest > 32 { 32 } else { rest };
+    match r.read_bits::<u32>(take as u32) {
+        Ok(v) => chk!(s, v as u64 == model_bits(&all, POS, take), "reader.commit.post_bits: after a commit the bits from the position on are delivered unchanged"),
+        Err(e) => {
+            chk!(s, false, "reader.commit.post_bits: after a commit the bits from the position on are delivered unchanged");
+            core::mem::forget(e);
+        }
+    }
+    s.reach();
+}
+
+// ---- variable-length codes ------------------------------------------------------------------------------------------------------------------------------
+// a 7-entry table with code words 0, 10, 110, 1110, 1111 (leaves carry their index)
+const VLC: [Entry<u8>; 9] = [
+    Entry::Fork(1, 2), Entry::End(10), Entry::Fork(3, 4), Entry::End(20), Entry::Fork(5, 6), Entry::End(30), Entry::Fork(7, 8), Entry::End(40), Entry::End(50),
+];
+fn walk(all: &[u8; MAXB], total: usize, pos: usize) -> Option<(u8, usize)> {
+    let mut idx = 0usize;
+    let mut used = 0usize;
+    let mut step = 0;
+    while step < 6 {
+        match VLC[idx] {
+            Entry::End(t) => return Some((t, used)),
+            Entry::Fork(z, o) => {
+                if pos + used + 1 > total * 8 {
+                    return None;
+                }
+                idx = if model_bits(all, pos + used, 1) == 0 { z } else { o };
+                used += 1;
+            }
+        }
+        step += 1;
+    }
+    None
+}
+fn h_vlc<S: Src, const TOTAL: usize, const B: usize, const POS: usize>(s: &mut S) {
+    let all: [u8; MAXB] = s.arr();
+    let mut r = mk(&all, TOTAL, B, POS);
+    match (r.read_vlc(&VLC[..]), walk(&all, TOTAL, POS)) {
+        (Ok(t), Some((want, used))) => chk!(s, t == want && r.bits_read == POS + used, "reader.read_vlc.post: the leaf reached by following the bits; exactly the code word is consumed"),
+        (Err(e), None) => {
+            chk!(s, is_eof(&e), "reader.read_vlc.eof: end-of-data when the code word is cut off");
+            core::mem::forget(e);
+        }
+        (Ok(_), None) => chk!(s, false, "reader.read_vlc.post: a cut-off code word is not decoded"),
+        (Err(e), Some(_)) => {
+            chk!(s, false, "reader.read_vlc.post: a complete code word is decoded");
+            core::mem::forget(e);
+        }
+    }
+    // an invalid table index is reported, not followed
+    let bad: [Entry<u8>; 1] = [Entry::Fork(5, 6)];
+    let mut r = mk(&all, TOTAL, B, POS);
+    if POS + 1 <= TOTAL * 8 {
+        match r.read_vlc(&bad[..]) {
+            Ok(_) => chk!(s, false, "reader.read_vlc.bad_table: an index outside the table is an InternalDecoderError"),
+            Err(e) => {
+                chk!(s, matches!(e, Error::InternalDecoderError), "reader.read_vlc.bad_table: an index outside the table is an InternalDecoderError");
+                core::mem::forget(e);
+            }
+        }
+    }
+    s.reach();
+}
+
+// ---- C05: a source that runs dry and later delivers more (append) ------------------------------------------------------------------------------------------
+pub struct Growing {
+    data: [u8; MAXB],
+    avail: usize,
+    pos: usize,
+}
+impl std::io::Read for Growing {
+    fn read(&mut self, buf: &mut [u8]) -> std::io::Result<usize> {
+        if buf.is_empty() || self.pos >= self.avail {
+            return Ok(0);
+        }
+        buf[0] = self.data[self.pos];
+        self.pos += 1;
+        Ok(1)
+    }
+}
+// the first read asks for N bits while only FIRST bytes have arrived: it fails without consuming; after the rest is appended the same read
+// returns what an undivided delivery returns
+fn h_append<S: Src, const FIRST: usize, const N: usize>(s: &mut S) {
+    let all: [u8; MAXB] = s.arr();
+    let mut r = H263Reader::from_source(Growing { data: all, avail: FIRST, pos: 0 });
+    let first = r.read_bits::<u32>(N as u32);
+    match first {
+        Ok(v) => chk!(s, N <= FIRST * 8 && v as u64 == model_bits(&all, 0, N), "reader.append.first_ok"),
+        Err(e) => {
+            chk!(s, N > FIRST * 8 && is_eof(&e) && r.bits_read == 0, "reader.append.first_fails_clean: lack of data fails without consuming");
+            core::mem::forget(e);
+            r.source.avail = MAXB;
+            match r.read_bits::<u32>(N as u32) {
+                Ok(v) => chk!(s, v as u64 == model_bits(&all, 0, N) && r.bits_read == N, "reader.append.retry: after more data is appended the read behaves as if all data had been there from the start"),
+                Err(e2) => {
+                    chk!(s, false, "reader.append.retry: after more data is appended the read behaves as if all data had been there from the start");
+                    core::mem::forget(e2);
+                }
+            }
+        }
+    }
+    s.reach();
+}
+
+#[cfg(kani)]
+mod proofs {
+    use super::*;
+    macro_rules! shape {
+        ($name:ident, $f:ident, $($g:expr),*) => {
+            #[kani::proof]
+            #[kani::unwind(36)]
+            fn $name() {
+                $f::<KSrc, $($g),*>(&mut KSrc)
+            }
+        };
+    }
+    include!("/verif/hooks/h263/parser/reader_shapes.rs");
+}
+
+#[cfg(all(test, not(kani)))]
+mod replay {
+    use super::*;
+    macro_rules! shape {
+        ($name:ident, $f:ident, $($g:expr),*) => {
+            pub fn $name(r: &mut RSrc) {
+                $f::<RSrc, $($g),*>(r)
+            }
+        };
+    }
+    mod shapes {
+        use super::*;
+        include!("/verif/hooks/h263/parser/reader_shapes.rs");
+    }
+    fn dispatch(name: &str, r: &mut RSrc) -> bool {
+        include!("/verif/hooks/h263/parser/reader_replay_arms.rs")
+    }
+    #[test]
+    fn verif_replay() {
+        verif_replay_main(dispatch)
+    }
+}
